@@ -113,6 +113,12 @@ def global_aliases(P, f, T, watch):
             return {(hm, hn)}
         return set()
 
+    # a parameter whose default value is a watched module-level object aliases it
+    for p_, d_ in f.defaults.items():
+        if isinstance(d_, ast.Name):
+            hm, hn = global_home(P, f.module, d_.id)
+            if hm is not None and (hm, hn) in watch:
+                al.setdefault(p_, set()).add((hm, hn))
     changed = True
     nodes = []
     for s in body:
